@@ -188,14 +188,20 @@ impl Idle {
                             }
                             _ => {
                                 // the frame was handed to the radio: never reuse its counter
-                                let _ = mac.rx2_complete();
+                                // (an exhausted counter space is reported even so)
+                                if let mac::Response::SessionExpired = mac.rx2_complete() {
+                                    return (State::Idle(self), Ok(Response::SessionExpired));
+                                }
                                 (State::Idle(self), Err(Error::UnexpectedRadioResponse.into()))
                             }
                         }
                     }
                     Err(e) => {
                         // the frame was handed to the radio: never reuse its counter
-                        let _ = mac.rx2_complete();
+                        // (an exhausted counter space is reported even so)
+                        if let mac::Response::SessionExpired = mac.rx2_complete() {
+                            return (State::Idle(self), Ok(Response::SessionExpired));
+                        }
                         (State::Idle(self), Err(super::Error::Radio(e)))
                     }
                 }
